@@ -37,7 +37,13 @@ META = {
                   "correspondence batches only; the Euclidean mode is proved for integer lengths (lattice meshes, "
                   "perfect-square squared lengths) and for any fixed non-negative dyadic length table. A set query none of "
                   "whose members is connected, a start that is not a vertex (incl. the sink id -1) and target ids that are "
-                  "not vertices are outside the property (modelled and compared, not specified). Floating-point round-off is outside the theorems: the 'length' mode is exercised on lattice meshes "
+                  "not vertices are outside the property (modelled and compared, not specified). Deliberately left free: the class and message of any exception; the behaviour on inputs the text "
+                  "does not speak about (start or targets that are not vertices, empty target set, no border, a set none of "
+                  "whose members is connected: refusal or any answer); what is stored for a target that is not connected "
+                  "(entry or none, any value); which of several optimal paths / nearest members is returned, also between "
+                  "two identical calls; the order of the returned dict; the container and scalar types of the answer; the "
+                  "order, direction and numbering of the chains of the exported polyline; new attributes left on the mesh, "
+                  "reordering of the caller's collections, warnings and log lines. Floating-point round-off is outside the theorems: the 'length' mode is exercised on lattice meshes "
                   "whose edge lengths are exact integers, and on general coordinates through the exact dyadic values of "
                   "the binary64 lengths with a 1e-9 relative tolerance on path weights. The exported path polyline and "
                   "the absence of side effects on other queues are only tested by the oracle.",
@@ -274,9 +280,9 @@ def gen_pre(rng, b):
     if r < 0.6:
         steps.append({"op": "edge_length", "name": rng.choice(["length", "length", "length", "l"]),
                       "persistent": rng.random() < 0.85})
-        if rng.random() < 0.4:
-            steps.append({"op": "warm", "start": rng.randrange(50), "target": rng.randrange(50),
-                          "weights": rng.choice(["length", "one"])})
+        if rng.random() < 0.6:
+            steps.append({"op": "warm", "f": rng.choice(["sp", "set"]), "start": rng.randrange(50), "target": rng.randrange(50),
+                          "weights": rng.choice(["length", "length", "one"])})
         sc = rng.choice([(1, 2, 3), (2, 1, 1), (1, 3, 1), (5, 1, 2)])
         if b["kind"] in ("arrays", "raw"):
             final = b["V"]
@@ -466,13 +472,13 @@ def ws_term(case, info):
 
 def obs_term(o):
     k = o[0]
-    if k == "paths":
-        return "(OPaths %s)" % coq_list(["(%s, %s)" % (zlit(t), zlist(p)) for t, p in o[1]])
+    if k == "paths":     # an entry that is not a vertex list is free for an unconnected target, condemned by the oracle otherwise
+        return "(OPaths %s)" % coq_list(["(%s, %s)" % (zlit(t), zlist(p)) for t, p in o[1] if p is not None])
     if k == "set":
         return "(OSet %s %s)" % (zlit(o[1]), zlist(o[2]))
     if k == "border":
         return "(OBorder %s)" % zlist(o[1])
-    return {"typeerror": "OTypeError", "keyerror": "OKeyError", "notarget": "ONoTarget", "noborder": "ONoBorder"}.get(k, "OOther")
+    return "ORefused" if k == "refused" else "OOther"
 
 
 def query_term(q):
@@ -527,19 +533,40 @@ def path_weight(wmap, p):
 
 
 def polyline_problem(info, paths, pl):
-    """the exported polyline: one vertex per path vertex (paths in the order given), consecutive ones joined"""
+    """the exported polyline draws the returned paths: as a graph it is a disjoint union of chains, one per path, whose
+    vertex coordinates are those of the path in order (which chain comes first, its direction and the vertex numbering are free)"""
     if pl is None:
         return None
     P = info["coords"]
-    want_v, want_e = [], []
-    for p in paths:
-        k = len(want_v)
-        want_v += [P[v] for v in p]
-        want_e += [[k + i - 1, k + i] for i in range(1, len(p))]
-    if pl["vertices"] != want_v:
-        return "exported polyline does not list the path vertices in order"
-    if sorted(sorted(e) for e in pl["edges"]) != sorted(want_e):
-        return "exported polyline edges %s do not join consecutive path vertices (expected %s)" % (pl["edges"], want_e)
+    nv = len(pl["vertices"])
+    adj = [[] for _ in range(nv)]
+    for a, b2 in pl["edges"]:
+        if not (0 <= a < nv and 0 <= b2 < nv) or a == b2:
+            return "exported polyline has an ill-formed edge (%s, %s)" % (a, b2)
+        adj[a].append(b2)
+        adj[b2].append(a)
+    if any(len(x) > 2 for x in adj):
+        return "exported polyline is not a union of chains"
+    seen, chains = set(), []
+    for v0 in [v for v in range(nv) if len(adj[v]) <= 1] + list(range(nv)):
+        if v0 in seen:
+            continue
+        ch, prev, cur = [], None, v0
+        while cur is not None and cur not in seen:
+            seen.add(cur)
+            ch.append(cur)
+            nxt = [x for x in adj[cur] if x != prev]
+            prev, cur = cur, (nxt[0] if nxt else None)
+        if cur is not None and len(ch) > 2 and cur == v0:
+            return "exported polyline contains a closed loop"
+        chains.append([tuple(pl["vertices"][v]) for v in ch])
+
+    def canon(seq):
+        return min(tuple(seq), tuple(reversed(seq)))
+    want = sorted(canon([tuple(P[v]) for v in p]) for p in paths if p)
+    got = sorted(canon(c) for c in chains)
+    if got != want:
+        return "exported polyline does not draw the returned paths (chains %s, paths %s)" % (str(got)[:160], str(want)[:160])
     return None
 
 
@@ -571,19 +598,19 @@ def oracle_query(case, info, q, o):
         if o[0] != "paths":
             return "shortest_path(start=%d, targets=%s, weights=%s) answered %s" % (s, q["targets"], case["mode"], o[:2])
         got = dict((t, p) for t, p in o[1])
-        if sorted(got) != T:
+        if not set(got) <= set(T) or any(t not in got for t in T if d[t] is not None):
             return "returned keys %s, requested targets %s" % (sorted(got), T)
         for t in T:
-            if d[t] is None:                 # not a connected pair: no path, and the other targets keep theirs
-                if got[t] != []:
-                    return "target %d is not connected to %d but got the path %s" % (t, s, got[t])
+            if d[t] is None:                 # not a connected pair: what is stored for it is free
                 continue
+            if got[t] is None:
+                return "target %d is connected to %d but its entry is not a vertex list" % (t, s)
             m = path_problem(info, wmap, s, t, got[t])
             if m:
                 return m
             if not same_weight(path_weight(wmap, got[t]), d[t], exact):
                 return "path %s to %d has weight %s, the minimum is %s" % (got[t], t, path_weight(wmap, got[t]), d[t])
-        return polyline_problem(info, [p for _, p in o[1]], o[2] if len(o) > 2 else None)
+        return polyline_problem(info, [p for t, p in o[1] if p and d[t] is not None], o[2] if len(o) > 2 else None)
     if q["f"] == "set":
         T = sorted(set(model_targets(q["targets"])))
         kind = "shortest_path_to_vertex_set"
@@ -632,18 +659,14 @@ def ambient_problem(case, info, qi):
 
 
 def extras_problem(case, info, qi):
-    """no side effect on the mesh or on the arguments; the same call repeated answers the same"""
+    """the same call repeated (after the caller modified the first answer in place) must again satisfy the property;
+    it need not be the same answer. New attributes on the mesh / reordered argument collections are left free (counted)."""
     ex = (info.get("extras") or [])
     ex = ex[qi] if qi < len(ex) else {}
-    if ex.get("attrs_changed"):
-        return "side effect on the mesh: the attribute names changed from %s to %s during the call" % tuple(ex.get("attrs") or ["?", "?"])
-    if ex.get("weights_mutated"):
-        return "side effect on the arguments: the caller's weights dict was modified"
-    if ex.get("targets_mutated"):
-        return "side effect on the arguments: the caller's target collection was modified"
     if ex.get("repeat") is not None:
-        return ("repeated call: after the first answer %s was modified in place by the caller, the same call answered %s"
-                % (str(info["obs"][qi][:3])[:200], str(ex["repeat"][:3])[:200]))
+        m = oracle_query(case, info, case["queries"][qi], ex["repeat"])
+        if m:
+            return "repeated call (the first answer had been modified in place by the caller): " + m
     return None
 
 
@@ -654,8 +677,7 @@ def judge(case, info, qi):
 
 def category(msg):
     """which clause of the property the oracle's sentence is about"""
-    for pat, cat in (("side effect on the mesh", "leaked-attribute"), ("side effect on the arguments", "argument-mutated"),
-                     ("repeated call", "repeat-differs"), ("side effect", "side-effect"), ("polyline", "polyline"), ("not a mesh edge", "not-an-edge-path"),
+    for pat, cat in (("repeated call", "repeated-call"), ("side effect", "side-effect"), ("polyline", "polyline"), ("not a mesh edge", "not-an-edge-path"),
                      ("does not begin", "wrong-start"), ("does not end", "wrong-end"), ("is not a member", "end-not-in-set"),
                      ("the minimum is", "not-minimal"), ("nearest member is at", "not-nearest"), ("not connected", "unconnected-target"),
                      ("returned keys", "wrong-keys"), ("answered", "no-answer")):
@@ -669,7 +691,7 @@ def classify(case, q, o, msg=None):
     session scenario: specific enough that a recorded finding masks nothing else"""
     scen = ("+ambient" if case.get("ambient") else "") + ("+pre" if case.get("pre") else "")
     detail = ""
-    if o[0] in ("typeerror", "keyerror", "other", "timeout") and len(o) > 1:
+    if o[0] in ("refused", "other", "timeout") and len(o) > 1:
         detail = ":" + str(o[1])[:48]
     return "%s/%s%s/%s%s" % (classify_core(case, q, o), q.get("targets", {}).get("form", "-"), detail, category(msg), scen)
 
@@ -853,6 +875,10 @@ def run(ctx):
             ctx.count("start given as " + q.get("startform", "int"))
             if q.get("repeat"):
                 ctx.count("query repeated after vandalising the first answer")
+            exi = (inf.get("extras") or [{}] * (qi + 1))[qi] if qi < len(inf.get("extras") or []) else {}
+            for flag in ("attrs_changed", "weights_mutated", "targets_mutated"):
+                if exi.get(flag):
+                    ctx.count("free behaviour observed: " + flag)
             if q["start"] == 0 or ("targets" in q and 0 in model_targets(q["targets"])):
                 ctx.count("vertex 0 is the start or a target")
             if q["f"] == "set" and len(model_targets(q["targets"])) == 1:
